@@ -76,7 +76,11 @@ fn c06_base() -> Check {
 pub fn c08() -> Check {
     let mut c = c08_base();
     c.scenarios.push(Box::new(SqlScenario { name: "c08-sorts-tight", family: Family::Sort, mode: Mode::Exact, need_reference: true, weight: 1, dynamic_filters: false, nlj_focus: false, tight_sort: true, file_tables: false, ordered_agg: false }));
-    c.cases_quick = 24_000;
+    // the plans' sort-family nodes (SortExec, SortPreservingMergeExec, PartialSortExec, PartitionedTopKExec)
+    // observed through taps: each partition stream must be in the order the node declares
+    c.scenarios.push(Box::new(crate::c53::Metrics { declared_order: true }));
+    c.scenarios.push(Box::new(crate::c08ops::PartitionedTopK));
+    c.cases_quick = 28_000;
     c
 }
 fn c08_base() -> Check {
